@@ -115,6 +115,17 @@ func (in *Interp) InstallTimeStubs() {
 		}
 		return []Value{t.NS}, nil
 	}
+	in.Stubs["time.Time.Unix"] = func(in *Interp, recv Value, args []Value) ([]Value, error) {
+		t, err := tv(recv)
+		if err != nil {
+			return nil, err
+		}
+		sec := t.NS / 1000000000
+		if t.NS%1000000000 < 0 {
+			sec--
+		}
+		return []Value{sec}, nil
+	}
 	in.Stubs["time.Time.UTC"] = func(in *Interp, recv Value, args []Value) ([]Value, error) {
 		return []Value{recv}, nil
 	}
